@@ -618,6 +618,10 @@ fn simple_glyphs_from_kurbo(paths: &[BezPath]) -> Result<Vec<SimpleGlyph>, Malfo
     Ok(glyphs)
 }
 
+#[cfg(googlefonts_fontations_verif)]
+#[path = "/verif/harness/incrate/simple.rs"]
+mod verif_harness;
+
 #[cfg(test)]
 mod tests {
     use font_types::GlyphId;
